@@ -12,7 +12,7 @@
      1 add_before_produce  2 end_after_acks (no failed batch at commit)
      3 no_write_outside_txn  4 end_reaches_coordinator. *)
 From Coq Require Import ZArith List Bool Arith.
-From Verif Require Import Imp TxnTable C16_TxnApi C07_Txn C07_client C07_env C07_atomic C07_misc.
+From Verif Require Import Imp TxnTable C16_TxnApi C07_Txn C07_client C07_env C07_atomic C07_misc C07_order.
 Import ListNotations.
 Local Open Scope nat_scope.
 
@@ -81,10 +81,39 @@ Proof.
 Qed.
 Print Assumptions c07_no_write_outside_txn.
 
-(* a batch is handed to a Produce request only for a partition that is not waiting for
-   AddPartitionsToTxn (muting) and — unless error_transaction / fatal_error cleared the sets in this
-   transaction — whose AddPartitionsToTxn was acknowledged (it is in _txn_partitions) *)
-Theorem c07_add_before_produce_partial : forall n tr s i b s',
+(* add_before_produce, at full strength: on EVERY accepted trace, whenever a leader appends a
+   transactional batch — or the group coordinator applies a transactional offset commit — the
+   transaction coordinator is in Ongoing and has that partition (that group) registered; i.e.
+   obligation 1 of [ob] is never broken.  (Proof: muting + the priority rule + the repaired
+   error_transaction keep "registered at the client => registered at the coordinator" for the one
+   instance that holds the coordinator's epoch; proof/C07_order.v.) *)
+Theorem c07_add_before_produce : forall n tr s e s',
+  run (g0 n) tr = Some s -> step s e = Some s' -> ob s e <> Some 1.
+Proof. exact add_before_produce. Qed.
+Print Assumptions c07_add_before_produce.
+
+(* spelled out for a Produce request *)
+Corollary c07_add_before_produce_batch : forall n tr s i b s',
+  run (g0 n) tr = Some s -> step s (RProduce i b VApplied) = Some s' ->
+  exists c x r, nth_error (clients s) i = Some c /\
+    take_bid b (inflight c ++ match cst c with FATAL => deadb c | _ => [] end) = Some (x, r) /\
+    est (genv s) = EOngoing /\ In (bpart x) (eparts (genv s)).
+Proof.
+  intros n tr s i b s' R S. pose proof (add_before_produce n tr s _ s' R S) as O.
+  unfold step in S. unfold ob in O.
+  destruct (nth_error (clients s) i) as [c|]; [|discriminate].
+  destruct (take_bid b _) as [[x r]|] eqn:T; [|discriminate].
+  exists c, x, r. split; [reflexivity|]. split; [exact T|].
+  destruct (is_ongoing (genv s) && memn (bpart x) (eparts (genv s))) eqn:G; [|exfalso; apply O; reflexivity].
+  apply andb_prop in G. destruct G as (G1 & G2). split; [apply is_ongoing_true; exact G1 | apply memn_In; exact G2].
+Qed.
+Print Assumptions c07_add_before_produce_batch.
+
+(* client side of add_before_produce: a batch is handed to a Produce request only for a partition
+   that is not waiting for AddPartitionsToTxn (muting) and whose AddPartitionsToTxn was acknowledged
+   in this transaction (it is in _txn_partitions) — fatal_error, after which the sender is gone,
+   being the only thing that clears the sets *)
+Theorem c07_drain_only_registered : forall n tr s i b s',
   run (g0 n) tr = Some s -> step s (SDrain i b) = Some s' ->
   exists c x, get s i = Some c /\ In x (queue c) /\ bid x = b /\
               ~ In (bpart x) (pend_parts c) /\ (cerr c = false -> In (bpart x) (txn_parts c)).
@@ -92,69 +121,59 @@ Proof.
   intros n tr s i b s' H S. eapply drain_registered; eauto.
   eapply (run_gpinv tr (g0 n) s); eauto. apply gcinv_g0. apply gpinv_g0.
 Qed.
-Print Assumptions c07_add_before_produce_partial.
+Print Assumptions c07_drain_only_registered.
 
-(* The full statement — every batch a leader appends is for a partition the coordinator has
-   registered for the open transaction (obligation 1 never breaks) — ... *)
-Definition C07_add_before_produce_full : Prop :=
-  forall n tr s, run (g0 n) tr = Some s -> forall k, first_ob (g0 n) tr 0 <> Some (k, 1).
-(* ... is false of the code: after error_transaction cleared _pending_txn_partitions the muted batch
-   is drained and appended although AddPartitionsToTxn had failed (trace of the real producer). *)
-Theorem c07_add_before_produce_refuted :
-  ~ C07_add_before_produce_full /\
-  exists s, run (g0 1) w_unregistered_produce = Some s /\
-            first_ob (g0 1) w_unregistered_produce 0 = Some (12, 1) /\
-            est (genv s) = EEmpty /\ eparts (genv s) = [] /\
-            rc_open_t (log_of 1 (glog (genv s))) = [((0, 1), 1)].
-Proof.
-  destruct witness_unregistered_produce as (s & R & F & A & B & C).
-  split; [|exists s; auto]. intros H. exact (H 1 _ s R 12 F).
-Qed.
-Print Assumptions c07_add_before_produce_refuted.
-
-(* ===== the full obligations are NOT guaranteed by the code as it is =============================== *)
+(* ===== the one obligation the code as it is does NOT guarantee ==================================== *)
 (* "the client never breaks an obligation": *)
 Definition C07_client_obligations_full : Prop :=
   forall n tr s, run (g0 n) tr = Some s -> first_ob (g0 n) tr 0 = None.
-(* "transactions are atomic on every accepted trace" (no hypothesis on the client): *)
-Definition C07_atomic_unconditional_full : Prop :=
-  forall n tr s, run (g0 n) tr = Some s ->
-  forall i k acc, In ((i, k), OAborted, acc) (ended s) ->
-  forall x p, ~ In ((i, k), x) (rc_view_t (log_of p (glog (genv s)))).
+(* "every record of a transaction whose commit returned is visible" on every accepted trace (no
+   hypothesis on the client): *)
+Definition C07_committed_complete_full : Prop :=
+  forall n tr s, run (g0 n) tr = Some s -> est (genv s) <> EPrep true ->
+  forall i k acc, In ((i, k), OCommitted, acc) (ended s) ->
+  forall x p, In (x, p) acc -> In ((i, k), x) (rc_view_t (log_of p (glog (genv s)))).
 
-(* Both are false of the faithful model; the witnesses are traces of the REAL producer (replayed on
-   the real code by harness/c07.py on every run; known_findings.d/C07.json):
-   - abort after an abortable error sends no EndTxn, the next commit publishes the aborted record
-     (obligation 4, and atomicity itself);
-   - error_transaction un-mutes a batch for a partition that was never added (obligation 1);
-   - a batch that failed non-retriably does not prevent commit (obligation 2). *)
+(* Both are false of the faithful model.  The witness is a trace of the REAL producer (re-recorded on
+   the real code by harness/c07.py on every run; known_findings.d/C07.json): a batch fails
+   non-retriably in the Produce response, flush_for_commit() is satisfied by the failed future,
+   EndTxn(COMMIT) is sent and commit_transaction() returns — obligation 2 (end_after_acks: "no batch
+   of the transaction failed") is broken at event 12 and the committed transaction lacks record 1. *)
 Theorem c07_client_obligations_refuted :
   ~ C07_client_obligations_full /\
-  first_ob (g0 1) w_abort_without_endtxn 0 = Some (18, 4) /\
-  first_ob (g0 1) w_unregistered_produce 0 = Some (12, 1) /\
   first_ob (g0 1) w_commit_without_batch 0 = Some (12, 2).
 Proof.
-  destruct witness_abort_without_endtxn as (s & R & _ & _ & F).
-  split; [|repeat split; vm_compute; reflexivity].
-  intros H. specialize (H 1 _ s R). rewrite F in H. discriminate.
+  destruct witness_commit_without_batch as (s & R & _ & _ & F).
+  split; [|exact F]. intros H. specialize (H 1 _ s R). rewrite F in H. discriminate.
 Qed.
 Print Assumptions c07_client_obligations_refuted.
 
-Theorem c07_atomic_unconditional_refuted :
-  ~ C07_atomic_unconditional_full /\
-  exists s, run (g0 1) w_abort_without_endtxn = Some s /\
-            ended_tags s = [((0, 1), OAborted); ((0, 2), OCommitted)] /\
-            rc_view_t (log_of 0 (glog (genv s))) = [((0, 1), 1); ((0, 2), 2)].
+Theorem c07_committed_complete_refuted :
+  ~ C07_committed_complete_full /\
+  exists s, run (g0 1) w_commit_without_batch = Some s /\
+            ended s = [((0, 1), OCommitted, [(1, 0)])] /\
+            rc_view_t (log_of 0 (glog (genv s))) = [].
 Proof.
-  destruct witness_abort_without_endtxn as (s & R & E & V & _).
+  destruct witness_commit_without_batch as (s & R & E & V & _).
   split; [|exists s; auto].
   intros H.
-  assert (A : exists acc, In ((0, 1), OAborted, acc) (ended s)).
-  { unfold ended_tags in E. destruct (ended s) as [|[[t o] a] l]; [discriminate|].
-    simpl in E. inversion E; subst. exists a. left. reflexivity. }
-  destruct A as (acc & A). apply (H 1 _ s R 0 1 acc A 1 0). rewrite V. left. reflexivity.
+  assert (P : est (genv s) <> EPrep true).
+  { intros K. revert K. pattern s. generalize R. vm_compute. intros Q. inversion Q. vm_compute. discriminate. }
+  specialize (H 1 _ s R P 0 1 [(1, 0)]). rewrite E in H.
+  specialize (H (or_introl eq_refl) 1 0 (or_introl eq_refl)). rewrite V in H. destruct H.
 Qed.
-Print Assumptions c07_atomic_unconditional_refuted.
+Print Assumptions c07_committed_complete_refuted.
+
+(* The paths repaired in the code (an abortable error keeps what is registered, abort ends it at the
+   coordinator, the waiting batch is failed instead of produced): the real producer's traces of
+   these scenarios now satisfy every obligation, the aborted record stays invisible. *)
+Example c07_repaired_traces :
+  (exists s, run_ob (g0 1) t_abort_after_abortable_error = Some s /\
+             ended_tags s = [((0, 1), OAborted); ((0, 2), OCommitted)] /\
+             rc_view_t (log_of 0 (glog (genv s))) = [((0, 2), 2)]) /\
+  (exists s, run_ob (g0 1) t_unauthorized_partition = Some s /\
+             ended_tags s = [((0, 1), OAborted)] /\ glog (genv s) = []).
+Proof. exact repaired_traces_satisfy_obligations. Qed.
 
 (* ===== fencing ==================================================================================== *)
 (* a new instance's InitProducerId bumps the epoch; from then on no request of an instance that
